@@ -3273,6 +3273,11 @@ namespace bloch::runtime {
                 m_trackedCounts[key][outcome]++;
             }
         }
+        // Take the scope off the stack before its values die: an object whose last reference
+        // lived here runs its destructor now, and that pushes (and pops) scopes of its own.
+        // Destroying the map while it is still the stack's last element would let those pushes
+        // reallocate the vector underneath it.
+        auto dying = std::move(m_env.back());
         m_env.pop_back();
     }
 
